@@ -403,13 +403,20 @@ def check_shs(inp):
     tau = float("inf") if tau is None else tau
     r = rl * C_SPEED / nu
     eps = ice_eps(nu, T)
+    e0 = 1.0
+    host = inp.get("host", "air")
+    if host == "ice":           # air bubbles in ice: the host is not the vacuum (radius/lambda < 0.01 in the host as well)
+        e0, eps = eps, 1.0
+        r = r / 1.8
     s = sensor(nu)
-    lay = mk_layer("sticky_hard_spheres", f, 1.0, eps, radius=r, stickiness=tau)
+    lay = mk_layer("sticky_hard_spheres", f, e0, eps, radius=r, stickiness=tau)
     iba, qca = ks_of("iba", s, lay), ks_of("dmrt_qca_shortrange", s, lay)
     out = []
     if not abs(iba / qca - 1) <= 0.05:
-        out.append(("shs:iba-vs-qca", f"ks IBA {iba:.6e} vs DMRT-QCA short range {qca:.6e} (ratio {iba / qca:.4f}) at nu={nu:.4e}, radius/lambda={rl:.3e}, "
-                    f"f={f:.4e}, stickiness={tau}", iba / qca, "within 5 % of 1"))
+        out.append((f"shs:iba-vs-qca:{host}", f"ks IBA {iba:.6e} vs DMRT-QCA short range {qca:.6e} (ratio {iba / qca:.4f}) at nu={nu:.4e}, radius/lambda={rl:.3e}, "
+                    f"f={f:.4e}, stickiness={tau}, host {host}", iba / qca, "within 5 % of 1"))
+    if host == "ice":
+        return out
     lay0 = mk_layer("sticky_hard_spheres", 1e-4, 1.0, eps, radius=r, stickiness=tau)
     ray = float(em("rayleigh")(s, lay0).ks)
     for name in ("iba", "dmrt_qca_shortrange"):
@@ -436,6 +443,24 @@ def check_eeff(inp):
             bound = 1e-9 * abs(want) if f in (0.0, 1.0) else 2 * min(f, 1 - f) * abs(eps - e0)
             if not abs(got - want) <= bound:
                 out.append((f"eeff-limit:{name}", f"{name}: eps_eff({f}) = {got}, limit {want}, allowed distance {bound:.3e} (nu={nu:.4e}, T={T:.1f})", got, want))
+    # the dense-medium option of IBA (the medium is inverted above f = 0.5): same limits, and the same effective permittivity as without
+    # the option (Polder-van Santen is symmetric in the two phases)
+    for name in ["iba", "iba_original"]:
+        for f, want in [(1.0, eps), (1 - 1e-2, eps), (1 - 1e-4, eps), (0.7, None), (0.3, None)]:
+            try:
+                lay = mk_layer("exponential", f, e0, eps, corr_length=1e-4)
+                got = complex(em(name)(s, lay, dense_snow_correction="auto").effective_permittivity())
+                ref = complex(em(name)(s, lay).effective_permittivity())
+            except Exception:  # noqa
+                continue
+            if want is not None:
+                bound = 1e-9 * abs(want) if f == 1.0 else 2 * (1 - f) * abs(eps - e0)
+                if not abs(got - want) <= bound:
+                    out.append((f"eeff-limit:{name}:dense-auto", f"{name}(dense_snow_correction='auto'): eps_eff({f}) = {got}, limit {want}, allowed "
+                                f"distance {bound:.3e} (nu={nu:.4e}, T={T:.1f})", got, want))
+            if not abs(got - ref) <= 1e-9 * abs(ref):
+                out.append((f"eeff-limit:{name}:dense-auto", f"{name}: eps_eff({f}) = {got} with dense_snow_correction='auto' but {ref} without "
+                            f"(nu={nu:.4e}, T={T:.1f})", got, ref))
     for name in ["dmrt_qca_shortrange", "dmrt_qcacp_shortrange"]:
         for f in (1e-2, 1e-4):
             got = complex(em(name)(s, mk_layer("sticky_hard_spheres", f, e0, eps, radius=1e-4 * C_SPEED / nu, stickiness=0.2)).effective_permittivity())
@@ -521,7 +546,7 @@ def oracle(ctx, hints, effort):
         if i % 4 == 1:
             f = 0.04999
         tau = [None, float(10 ** rng.uniform(-1, 3)), float(rng.uniform(0.1, 0.3))][i % 3]
-        record("shs", {"nu": nu, "rl": rl, "f": f, "T": float(rng.uniform(200, 273)), "tau": tau})
+        record("shs", {"nu": nu, "rl": rl, "f": f, "T": float(rng.uniform(200, 273)), "tau": tau, "host": "ice" if i % 5 == 4 else "air"})
     for i in range(max(3, n // 10)):
         record("eeff", {"nu": gen_nu(rng), "T": float(rng.uniform(200, 273))})
     for i in range(n):
